@@ -100,12 +100,17 @@ def _null_of(dtype: str):
 _ARB_FLOATS_INF = [0.1, np.nan, 1e-3, -3.7, np.inf, 1 / 3, -np.inf]
 
 
-def _make_values(dtype: str, codes_idx, arb):
+def _make_values(dtype: str, codes_idx, arb, inf_pair=None):
     alpha = (_ARB_FLOATS_INF if arb == "inf" else _ARB_FLOATS) if (arb and dtype.startswith("float")) else _ALPHA[dtype]
     raw = [alpha[i % len(alpha)] for i in codes_idx]
     if dtype[0] in "dt":
         return np.array(raw, dtype="int64").view(dtype)
-    return np.array(raw, dtype=dtype)
+    out = np.array(raw, dtype=dtype)
+    if inf_pair is not None and dtype.startswith("float") and inf_pair + 1 < len(out):
+        # +inf and -inf in adjacent rows of one group: the partial sum of the block holding
+        # both is NaN although the block holds no null
+        out[inf_pair], out[inf_pair + 1] = np.inf, -np.inf
+    return out
 
 
 # ---------------------------------------------------------------------------
@@ -168,6 +173,11 @@ def gen_scenario(s: Choices, cls, cfg):
             vals_idx = [1] * n
     sc["nullpat"] = nullpat
     sc["vals_idx"] = vals_idx
+    sc["inf_pair"] = None
+    if dtype.startswith("float") and n >= 2 and s.chance(1, 6):
+        p = s.draw(n - 1)
+        sc["inf_pair"] = p
+        sc["codes"][p + 1] = sc["codes"][p]
     # mask
     mk = s.weighted([(5, "none"), (3, "bool"), (2, "slice"), (3, "positions")])
     mask = None
@@ -427,7 +437,7 @@ def _build_inputs(sc):
     dtype = sc["dtype"]
     n = len(sc["codes"])
     codes = np.array(sc["codes"], dtype=sc["code_dtype"]) if n else np.array([], dtype=sc["code_dtype"])
-    values = _make_values(dtype, sc["vals_idx"], sc["arbitrary_floats"])
+    values = _make_values(dtype, sc["vals_idx"], sc["arbitrary_floats"], sc.get("inf_pair"))
     m = sc["mask"]
     if m[0] == "none":
         mask = None
@@ -670,7 +680,7 @@ def execute(sc, sched: Choices, cls, cfg):
     else:
         rec["probes"].append("position_out_of_range_must_raise")
 
-    dig = hashlib.blake2b(repr((cls, sc["codes"], sc["vals_idx"], sc["ngroups"], sc["mask"], sc["exec"], sc["code_dtype"], sc["arbitrary_floats"])).encode(), digest_size=8).hexdigest()
+    dig = hashlib.blake2b(repr((cls, sc["codes"], sc["vals_idx"], sc["ngroups"], sc["mask"], sc["exec"], sc["code_dtype"], sc["arbitrary_floats"], sc.get("inf_pair"))).encode(), digest_size=8).hexdigest()
     rec["digest"] = dig
     rec["result"] = hashlib.blake2b(repr((single, block)).encode(), digest_size=8).hexdigest()
     if cfg.get("want_sample"):
